@@ -932,6 +932,92 @@ section Round4Flood
 open Mahotas.C10Flood
 -- (theorems of this package go between this line and the `end`)
 
+/-- **C10, `numpy::position_queue` (`numpypp/array.hpp`; used by `distance_multi`).** For every rank `size_ ≥ 1`, every compaction
+constant `limit` (512 in the source) and EVERY sequence of `push` / `if (!empty()) top_pop()` (the protocol of the callers'
+`while (!queue.empty())` loops): each `store_[next_*size_ + d]` read by `top()` is inside `store_`, and whenever `next_` reaches
+the limit the erased range `[begin, begin + next_*size_)` lies inside `store_`; the vector always holds a whole number of
+positions and `next_` never passes it (so the unsigned `size() = store_.size()/size_ - next_` does not wrap). -/
+theorem C10_position_queue_in_bounds (limit sz : Nat) (hsz : 1 ≤ sz) (ops : List Bool) :
+    vAllOk (qRun limit sz ops ⟨0, 0⟩).1 = true ∧
+      ∃ m : Nat, (qRun limit sz ops ⟨0, 0⟩).2.1.len = m * sz ∧ (qRun limit sz ops ⟨0, 0⟩).2.1.next ≤ m :=
+  qRun_ok limit sz hsz ops ⟨0, 0⟩ ⟨0, by simp, Nat.le_refl _⟩
+
+/-- non-vacuity: rank 2, limit 3, four pushes and five guarded pops (the compaction happens at the third pop; the fifth pop finds
+the queue empty): 4 × 2 reads + 1 erase; popping WITHOUT the `empty()` test reads past the vector -/
+example : (qRun 3 2 [true, true, true, true, false, false, false, false, false] ⟨0, 0⟩) =
+    ([⟨0, 8⟩, ⟨1, 8⟩, ⟨2, 8⟩, ⟨3, 8⟩, ⟨4, 8⟩, ⟨5, 8⟩, ⟨5, 8⟩, ⟨0, 2⟩, ⟨1, 2⟩], ⟨2, 1⟩, 4) ∧
+    vAllOk (qTopPop 512 2 ⟨2, 1⟩).1 = false := by decide
+
+/-- **C10, `numpy::position_stack` (`close_holes`, `remove_fake_regmin_max`).** For every rank `size_ ≥ 1` and every sequence of
+`push` / `if (!empty()) top_pop()`: each `store_[store_.size() - size_ + d]` is inside `store_`; the vector always holds a whole
+number of positions (so `end() - size_` is a valid iterator whenever the stack is not empty). -/
+theorem C10_position_stack_in_bounds (sz : Nat) (hsz : 1 ≤ sz) (ops : List Bool) :
+    vAllOk (sRun sz ops 0).1 = true ∧ ∃ m : Nat, (sRun sz ops 0).2.1 = m * sz :=
+  sRun_ok sz hsz ops 0 ⟨0, by simp⟩
+
+example : sRun 2 [true, true, false, false, false, true, false] 0 =
+    ([⟨2, 4⟩, ⟨3, 4⟩, ⟨0, 2⟩, ⟨1, 2⟩, ⟨0, 2⟩, ⟨1, 2⟩], 0, 3) := by decide
+
+/-- **C10, `close_holes`: the border seeding loops.** For EVERY 1-D and 2-D shape (zero-length axes included: the axis is skipped,
+resp. `N/dim(d) = 0` iterations) every `ref.at(pos)` / `f.at(pos)` of the seeding — `pos[d] = 0`, `pos[d] = dim(d) - 1`, the other
+coordinate advanced by the odometer `if (pos[j] < dim(j)) { ++pos[j]; break; }` — is inside the array. The odometer's test is `<`
+where `< dim(j) - 1` would be needed to carry: for rank ≥ 3 it steps one past an axis (third conjunct: a `1 × 3 × 3` array is left);
+the public `mahotas.close_holes` admits 2-D images only (`_check_2`, `C11_close_holes_safe`). -/
+theorem C10_close_holes_seeding_in_bounds :
+    (∀ n : Nat, pAllOk (chSeedAccesses [n]) = true) ∧ (∀ n0 n1 : Nat, pAllOk (chSeedAccesses [n0, n1]) = true) ∧
+      pAllOk (chSeedAccesses [1, 3, 3]) = false :=
+  ⟨chSeed_rank1, chSeed_rank2, by decide⟩
+
+example : (chSeedAccesses [2, 3]).map (·.pos) =
+    [[0, 0], [1, 0], [0, 1], [1, 1], [0, 2], [1, 2], [0, 0], [0, 2], [1, 0], [1, 2]] ∧ chSeedAccesses [0, 4] = [] := by decide
+
+/-- **C10, the stack flood of `close_holes` and `remove_fake_regmin_max`: accesses AND termination.**
+`while (!stack.empty()) { p = stack.top_pop(); for every neighbour delta: npos = p + delta; if (validposition(npos) && available(npos))
+{ take(npos); stack.push(npos); } }` — the step is `C14.floodVisit`. For every shape (any rank), every neighbourhood, every
+availability map and every initial stack: every position dereferenced is inside the array (all dereferences are behind
+`validposition`), and — because a position is pushed exactly when its flag is cleared — the loop DRAINS the stack after at most
+`stack length + number of available pixels` pops, and the stack never holds more positions than that. -/
+theorem C10_stack_flood_in_bounds (shape : List Nat) (nb : List (List Int)) (fuel : Nat) (av : Array Bool)
+    (st : List (List Int)) (hf : st.length + cntTrue av ≤ fuel) :
+    pAllOk (floodRun shape nb fuel av st).1 = true ∧ (floodRun shape nb fuel av st).2.1 = true ∧
+      (floodRun shape nb fuel av st).2.2.1 ≤ st.length + cntTrue av ∧
+      (floodRun shape nb fuel av st).2.2.2.1 ≤ st.length + cntTrue av :=
+  floodRun_ok shape nb fuel av st hf
+
+/-- non-vacuity: a 3×3 map with two unavailable pixels, cross neighbourhood, seed (0,0): 6 pixels taken in 7 pops, the stack is
+drained; with fuel 3 it is not -/
+example :
+    let av : Array Bool := #[false, true, true, true, false, true, true, true, false]
+    let nb : List (List Int) := [[-1, 0], [0, -1], [0, 1], [1, 0]]
+    ((floodRun [3, 3] nb 20 av [[0, 0]]).2.1, (floodRun [3, 3] nb 20 av [[0, 0]]).2.2.1,
+      cntTrue (floodRun [3, 3] nb 20 av [[0, 0]]).2.2.2.2, (floodRun [3, 3] nb 3 av [[0, 0]]).2.1) = (true, 7, 0, false) := by
+  decide
+
+/-- **C10, `close_holes` as `C14.closeHoles` runs it.** For every well-formed image (`data.size = ∏ shape`, any rank) and every
+neighbourhood: the fuel `C14.closeHoles` passes to the flood (`size + #seeds + 1`) drains the stack — so the C14 correctness
+theorems speak about a flood that has really ended — and every position the flood dereferences is inside the array. -/
+theorem C10_close_holes_flood_terminates (ref : Img Int) (nb : List (List Int)) (hwf : ref.data.size = ref.size) :
+    pAllOk (floodRun ref.shape nb (ref.size + (C14.chSeeds ref).length + 1) (C14.chAvail1 ref) (C14.chSeeds ref).reverse).1 = true ∧
+      (floodRun ref.shape nb (ref.size + (C14.chSeeds ref).length + 1) (C14.chAvail1 ref) (C14.chSeeds ref).reverse).2.1 = true := by
+  have hsz : ∀ (l : List (List Int)) (a : Array Bool),
+      (l.foldl (fun a p => a.setIfInBounds (ravelI ref.shape p) false) a).size = a.size := by
+    intro l
+    induction l with
+    | nil => intro a; rfl
+    | cons p ps ih => intro a; simp only [List.foldl_cons]; rw [ih]; simp
+  have h1 : (C14.chAvail1 ref).size = ref.size := by
+    unfold C14.chAvail1
+    rw [hsz]
+    simp [C14.chAvail0, hwf]
+  have h2 : cntTrue (C14.chAvail1 ref) ≤ ref.size := by
+    rw [← h1]
+    simp only [cntTrue]
+    have := List.countP_le_length (p := id) (l := (C14.chAvail1 ref).toList)
+    simpa using this
+  have := floodRun_ok ref.shape nb (ref.size + (C14.chSeeds ref).length + 1) (C14.chAvail1 ref) (C14.chSeeds ref).reverse
+    (by simp only [List.length_reverse]; omega)
+  exact ⟨this.1, this.2.1⟩
+
 end Round4Flood
 -- ---------------------------------------------------------------------------------------------------------
 
